@@ -400,6 +400,104 @@ let run_dyn mo jo impl secs =
        flush_dump ())
   | _ -> ()
 
+(* ---- BKT / EFI: BucketingPGMIndex and EliasFanoPGMIndex ---- *)
+let judge_search jo prop id eps data sentinel toks =
+  match toks with
+  | ["Q"; q; pos; lo; hi] ->
+    let qz = zin q in
+    let a = { a_pos = zin pos; a_lo = zin lo; a_hi = zin hi } in
+    let what = "q=" ^ q ^ " pos=" ^ pos ^ " lo=" ^ lo ^ " hi=" ^ hi in
+    if List.exists (fun d -> ZA.equal (zz_of_z d) (ZA.of_string q)) data then judge jo prop id ("present " ^ what) (c01_pred_b eps data qz a);
+    if zout sentinel <> q then judge jo prop id ("lower_bound " ^ what) (c02_pred_b data qz a)
+  | _ -> ()
+
+let run_bkt mo jo impl secs =
+  match secs with
+  | ("BKT" :: id :: _name :: kb :: eps :: tls :: tlbs :: fd :: _) :: _ ->
+    let kt = { kbits = zin kb; ksigned = false } in
+    let c = { c_kt = kt; c_eps = zin eps; c_epsrec = Z0; c_fdouble = (fd = "1"); c_par = zi 1; c_avx512 = !avx512 } in
+    let bc = { b_cfg = c; b_tls = zin tls; b_tlbs = zin tlbs } in
+    let data = List.map zin (nth_sec secs 1) and queries = List.map zin (nth_sec secs 2) in
+    pr mo "C %s\n" id;
+    (match bucketing_build bc data with
+     | Err e -> pr mo "B %s\n" (err_name e)
+     | Ok b ->
+       pr mo "B ok\nN %s %s %s %s\n" (zout b.bk_n) (zout b.bk_first) (zout b.bk_last) (zout b.bk_step);
+       pr mo "P%s\n" (String.concat "" (List.map (fun t -> " " ^ zout t) b.bk_top));
+       List.iter (fun s -> pr mo "S %s %s %s\n" (zout s.sg_key) (fr (frepr64 s.sg_slope)) (zout s.sg_icpt)) b.bk_segments;
+       List.iter (fun q -> match bucketing_search bc b q with
+         | Ok a -> pr mo "Q %s %s %s %s\n" (zout q) (zout a.a_pos) (zout a.a_lo) (zout a.a_hi)
+         | Err e -> pr mo "Q %s %s\n" (zout q) (err_name e)) queries);
+    (match Hashtbl.find_opt impl id with
+     | None -> ()
+     | Some lines ->
+       let sentinel = kmax kt in
+       let nn = zi (List.length data) in
+       let first = (match data with x :: _ -> x | [] -> Z0) and last = List.fold_left (fun _ x -> x) Z0 data in
+       let top = List.concat_map (function "P" :: t -> List.map int_of_string t | _ -> []) lines in
+       let segkeys = List.filter_map (function ["S"; k; _; _; _] -> Some (zz_of_z (zin k)) | _ -> None) lines in
+       let step = List.fold_left (fun a l -> match l with ["N"; _; _; _; st] -> ZA.of_string st | _ -> a) ZA.one lines in
+       let topa = Array.of_list top and seg = Array.of_list segkeys in
+       List.iter (fun toks ->
+         judge_search jo "C09" id c.c_eps data sentinel toks;
+         match toks with
+         | ["Q"; q; pos; lo; hi] ->
+           let qz = ZA.of_string q in
+           if ZA.lt qz (zz_of_z first) then judge jo "C09" id ("below first: " ^ pos ^ " " ^ lo ^ " " ^ hi) (pos = "0" && lo = "0" && hi = "0")
+           else if ZA.gt qz (zz_of_z last) then judge jo "C09" id ("above last: " ^ pos) (pos = zout nn && lo = zout nn && hi = zout nn)
+           else begin
+             (* the bucket's slice contains the rightmost segment starting at or before the key *)
+             let d = ZA.sub qz (zz_of_z first) in
+             let j = if pow_two bc.b_tls then ZA.to_int (ZA.shift_right d (iz (top_shift bc))) else ZA.to_int (ZA.div d step) in
+             let t = ref (-1) in
+             Array.iteri (fun i k -> if ZA.leq k qz && i < Array.length seg - 1 then t := i) seg;
+             judge jo "C09" id ("bucket " ^ string_of_int j ^ " slice misses segment " ^ string_of_int !t ^ " for q=" ^ q)
+               (j + 1 < Array.length topa && !t >= 0 && topa.(j) <= !t + 1 && !t + 1 <= topa.(j + 1))
+           end
+         | _ -> ()) lines)
+  | _ -> ()
+
+let run_efi mo jo impl secs =
+  match secs with
+  | ("EFI" :: id :: _name :: kb :: eps :: fd :: _) :: _ ->
+    let kt = { kbits = zin kb; ksigned = false } in
+    let c = { c_kt = kt; c_eps = zin eps; c_epsrec = Z0; c_fdouble = (fd = "1"); c_par = zi 1; c_avx512 = !avx512 } in
+    let data = List.map zin (nth_sec secs 1) and queries = List.map zin (nth_sec secs 2) in
+    let lines = match Hashtbl.find_opt impl id with Some l -> l | None -> [] in
+    (* the low width chosen by sdsl's get_params (double log2) is read from the implementation *)
+    let wl = List.fold_left (fun a l -> match l with ["W"; w; _] -> zin w | _ -> a) (zi 1) lines in
+    pr mo "C %s\n" id;
+    (match ef_index_build c wl data with
+     | Err e -> pr mo "B %s\n" (err_name e)
+     | Ok x ->
+       pr mo "B ok\nN %s %s\n" (zout x.ei_n) (zout x.ei_first);
+       pr mo "W %s %s\n" (zout x.ei_ef.ef_wl) (zout x.ei_ef.ef_size);
+       pr mo "L%s\n" (String.concat "" (List.map (fun t -> " " ^ zout t) x.ei_ef.ef_low));
+       pr mo "H %s\n" (String.concat "" (List.map (fun b -> if b then "1" else "0") x.ei_ef.ef_high));
+       List.iter (fun s -> pr mo "S %s %s\n" (fr (frepr64 s.es_slope)) (zout s.es_icpt)) x.ei_segments;
+       List.iter (fun q ->
+         let k = if ZA.lt (zz_of_z q) (zz_of_z x.ei_first) then x.ei_first else q in
+         let i = wrapK kt (z_of_zz (ZA.sub (zz_of_z k) (zz_of_z x.ei_first))) in
+         (match ef_pred x.ei_ef i with
+          | Ok (r, o) -> pr mo "PR %s %s %s\n" (zout i) (zout r) (zout o)
+          | Err e -> pr mo "PR %s %s\n" (zout i) (err_name e));
+         match ef_search c x q with
+         | Ok a -> pr mo "Q %s %s %s %s\n" (zout q) (zout a.a_pos) (zout a.a_lo) (zout a.a_hi)
+         | Err e -> pr mo "Q %s %s\n" (zout q) (err_name e)) queries;
+       (* judge pred on the implementation's answers: rightmost stored key <= i *)
+       let stored = Array.of_list (List.map zz_of_z (ef_values x.ei_ef)) in
+       List.iter (fun toks -> match toks with
+         | ["PR"; i; r; o] ->
+           let iv = ZA.of_string i in
+           let t = ref (-1) in
+           Array.iteri (fun j v -> if ZA.leq v iv then t := j) stored;
+           judge jo "C10" id ("pred(" ^ i ^ ") = (" ^ r ^ "," ^ o ^ ") expected segment " ^ string_of_int !t)
+             (!t >= 0 && r = string_of_int !t && o = ZA.to_string stored.(!t))
+         | _ -> ()) lines);
+    let sentinel = kmax kt in
+    List.iter (fun toks -> judge_search jo "C10" id c.c_eps data sentinel toks) lines
+  | _ -> ()
+
 let () =
   let mode = Sys.argv.(1) in
   let cases = Sys.argv.(2) and implf = Sys.argv.(3) and modelf = Sys.argv.(4) and judgef = Sys.argv.(5) in
@@ -411,6 +509,7 @@ let () =
     match mode with
     | "idx" -> run_idx mo jo impl secs; run_seg mo jo impl secs
     | "dyn" -> run_dyn mo jo impl secs
+    | "var" -> run_bkt mo jo impl secs; run_efi mo jo impl secs
     | _ -> failwith "unknown mode") (read_lines cases);
   Hashtbl.iter (fun prop (n, f) -> pr jo "JSUM %s %d %d\n" prop n f) jcount;
   close_out mo; close_out jo
